@@ -148,6 +148,40 @@ func ruleC02Sources(c *ctx.Ctx, r *core.Reporter) {
 		}
 		r.Check(ok, "source:"+w.id, c.Pos(arm.Pos()), fmt.Sprintf("%s (markBlocking under %q in arm %s of %s)", w.what, w.cond, w.label, ctx.FuncName(w.fd)))
 	}
+	// a generic function is analysed once per instance: a decision that depends on the type of an expression
+	// has to be taken on the substituted type (for a type parameter, Underlying() is the constraint interface)
+	{
+		ap := c.Pkg(analysisPkg)
+		n := 0
+		for _, fd := range c.AllFuncDecls(analysisPkg) {
+			if fd.Body == nil || fd.Recv == nil || c.IsTestFile(fd.Pos()) || !strings.HasPrefix(ctx.FuncName(fd), "FuncInfo.") {
+				continue
+			}
+			ast.Inspect(fd.Body, func(x ast.Node) bool {
+				call, ok := x.(*ast.CallExpr)
+				if !ok {
+					return true
+				}
+				if _, _, nm := callee(ap.TypesInfo, call); nm != "TypeOf" {
+					return true
+				}
+				n++
+				// the TypeOf call must be the argument of <resolver>.Substitute(...)
+				wrapped := false
+				ast.Inspect(fd.Body, func(y ast.Node) bool {
+					if outer, ok := y.(*ast.CallExpr); ok && len(outer.Args) == 1 && outer.Args[0] == ast.Expr(call) {
+						if _, _, on := callee(ap.TypesInfo, outer); on == "Substitute" {
+							wrapped = true
+						}
+					}
+					return true
+				})
+				r.Check(wrapped, fmt.Sprintf("instance-type:%s#%d", ctx.FuncName(fd), n), c.Pos(call.Pos()), fmt.Sprintf("`%s` is substituted with the instance's type arguments before it decides anything (a range over a value of type parameter type C ~chan T is a range over a channel)", exprStr(call)))
+				return true
+			})
+		}
+		r.Check(n >= 1, "instance-type:sites", analysisPkg, fmt.Sprintf("%d expression-type reads in the per-instance visitor", n))
+	}
 	// select: the only early return without marking is under `Comm == nil`
 	if arm := armOf(visit, "*ast.SelectStmt"); arm != nil {
 		ok := true
@@ -593,8 +627,7 @@ func ruleC02Flatten(c *ctx.Ctx, r *core.Reporter) {
 	}
 	// importInitializer marks its synthetic call blocking and flattened
 	if ii := c.FuncDecl("compiler", "funcContext.importInitializer"); ii != nil {
-		s := nodeString(c, ii.Body)
-		r.Check(strings.Contains(s, "fc.Blocking[call] = true") && strings.Contains(s, "fc.Flattened[call] = true"), "import-init:blocking+flattened", c.Pos(ii.Pos()), "the call of an imported package's $init is blocking and flattened: the importer cannot overtake it")
+		r.Check(importInitWaits(ii), "import-init:blocking+flattened", c.Pos(ii.Pos()), "the call of an imported package's $init is blocking and flattened — unconditionally: whether that package's initialisation suspends is not known when the importer is compiled (packages are compiled in import-path order, and init functions and transitive imports are marked later), and an importer that does not wait is overtaken")
 	}
 }
 
@@ -729,4 +762,21 @@ func isFlagFixpoint(loop *ast.ForStmt, step string) bool {
 	// every call of step is one whose result is tested
 	calls := len(callsNamed(loop.Body, step))
 	return cleared >= 1 && stray == 0 && unchecked == 0 && calls == cleared
+}
+
+// importInitWaits: importInitializer builds a call expression and marks it in both Blocking and Flattened
+// of the function context, outside of any condition.
+func importInitWaits(ii *ast.FuncDecl) bool {
+	okB, okF := false, false
+	for _, m := range findGoPattern(ii.Body, `µfc.Blocking[µcall] = true`) {
+		if len(enclosingIfs(ii.Body, m.Node.Pos())) == 0 {
+			okB = true
+		}
+	}
+	for _, m := range findGoPattern(ii.Body, `µfc.Flattened[µcall] = true`) {
+		if len(enclosingIfs(ii.Body, m.Node.Pos())) == 0 {
+			okF = true
+		}
+	}
+	return okB && okF
 }
